@@ -55,7 +55,10 @@ fn check_against_reference(ctx: &mut Ctx, s: &Stream, got: &[Message], k: usize,
             return;
         }
         let ek = expected_kind(r.mtype);
-        if kind_of(m) != ek {
+        // type 15 is the one fixed-frame type for which the crate ships a decoder that the stream
+        // decoder does not call yet; wiring it in would be legal ("types without a dedicated decoder")
+        let clutter_ok = r.mtype == 15 && kind_of(m) == "clutter";
+        if kind_of(m) != ek && !clutter_ok {
             ctx.violate(
                 "contents-kind",
                 format!("{}:type{}", what, r.mtype),
